@@ -13,7 +13,7 @@ import c16_full
 
 chk = Check('C16')
 chk.extra['rule'] = ('random systems (1-5 molecules, arbitrary integer node keys, atom ids that reorder the nodes, '
-                     'None/absent attributes, names of 0-6 characters, residue numbers across 9999/-999, '
+                     'None/absent attributes, names of 0-6 characters (a quarter of the systems with points in the names, also on the first GRO line), residue numbers across 9999/-999, '
                      'coordinates on the 0.001 grid incl. negative and 8-column overflow, random bond graphs incl. '
                      'degree > 4) plus systems of 9998-10002 (thorough: 99998-100002) atoms are written by the real '
                      'write_pdb_string / write_gro; the text is compared byte for byte with the Lean model, read '
@@ -155,6 +155,14 @@ def pdb_letterless(case):
     return False
 
 
+def gro_first_points(case):
+    """points in the name columns of the first atom line of the GRO file (names as they fit their columns)"""
+    for mol in case['mols']:
+        for a in write_order(mol):
+            return want_str(a['resname'], 5).count('.') + want_str(a['atomname'], 5, 'right').count('.')
+    return 0
+
+
 def gro_letterless(case):
     return any(not has_letter(want_str(a['atomname'], 5, 'right')) for mol in case['mols'] for a in mol['atoms'])
 
@@ -292,13 +300,14 @@ def canon_gro(mol):
 # generator
 # ----------------------------------------------------------------------------
 ALPHA = LETTERS + '0123456789' * 3 + "'*+-_"
+ALPHAD = ALPHA + '.' * 12        # names with points: 'C1.A', 'ZN2.' (legal; read_gro counts the points of its first line)
 HOSTILE = ALPHA + '#. '
 
 
 def rand_name(rng, lo, hi, alphabet=ALPHA, need_letter=False):
     n = rng.randint(lo, hi)
     s = ''.join(rng.choice(alphabet) for _ in range(n))
-    if n >= 3 and alphabet is ALPHA and rng.random() < 0.05:
+    if n >= 3 and (alphabet is ALPHA or alphabet is ALPHAD) and rng.random() < 0.05:
         s = s[0] + ' ' + s[2:]   # internal blank
     if need_letter and n:
         # a letter that survives both the keep-left (PDB, 4) and the keep-right (GRO, 5) truncation
@@ -344,7 +353,7 @@ def rand_mol(rng, natoms, style):
             aid = rng.choice([None, rng.randint(1, max(2, natoms // 2))])
         opt = (lambda v: None if (style['nones'] and rng.random() < 0.15) else v)
         hostile = style['hostile']
-        al = HOSTILE if hostile else ALPHA
+        al = HOSTILE if hostile else (ALPHAD if style.get('dots') else ALPHA)
         a = atom(key, aid,
                  atomname=opt(rand_name(rng, 0 if hostile or style['letterless'] else 1, 6, al,
                                         need_letter=not (hostile or style['letterless']))),
@@ -396,9 +405,15 @@ def rand_case(rng, kind='plain'):
     style = {'scatter_keys': rng.random() < 0.5,
              'idmode': rng.choice(['none', 'order', 'shuffled', 'partial']),
              'nones': rng.random() < 0.4, 'altloc': rng.random() < 0.15, 'density': rng.choice([0, 0.5, 1.0, 1.0]),
-             'hub': rng.random() < 0.4, 'hostile': kind == 'hostile', 'letterless': kind == 'letterless'}
+             'hub': rng.random() < 0.4, 'hostile': kind == 'hostile', 'letterless': kind == 'letterless',
+             'dots': kind == 'plain' and rng.random() < 0.25}
     nmol = rng.choice([1, 1, 2, 3, 5])
     mols = [rand_mol(rng, rng.choice([1, 1, 2, 3, 5, 8, 13]), style) for _ in range(nmol)]
+    if style['dots'] and mols[0]['atoms'] and rng.random() < 0.3:
+        # points in the names of the atom that is written FIRST: one, two, or the critical three
+        first = write_order(mols[0])[0]
+        first['resname'], first['atomname'] = rng.choice([('ZN2.', 'C1.A'), ('A.B.', 'C.'), ('AL.', 'C..A'), ('ALA', 'C.1'),
+                                                          ('A.B', 'C'), ('...', 'CA'), ('R', 'C...'), ('A.B.C.D', 'XC1.A')])
     return {'mols': mols, 'conect': rng.random() < 0.85, 'kind': kind}
 
 
@@ -594,6 +609,18 @@ def run_gro(cid, case0, precision=None):
         else:
             use = False
         cnt('gro_letterless_name')
+    elif gro_first_points(case) == 3:
+        # read_gro takes a first atom line with six points for one with velocities: three points in the names of
+        # the first atom make it expect velocity columns (candidate finding F-C16-4, see the notes)
+        if 'F-C16-4' in known:
+            finding = 'F-C16-4'
+        else:
+            use = False
+        cnt('gro_first_line_three_points')
+    if kind != 'hostile' and any('.' in (a['atomname'] or '') + (a['resname'] or '') for m in case['mols'] for a in m['atoms']):
+        cnt('gro_points_in_names')
+        if gro_first_points(case) not in (0, 3):
+            cnt('gro_points_in_first_line_names')
     cnt('gro_read_' + impl_r.split()[0] + ('' if exc is None else '_' + impl_r.split()[1]))
     records.append((cid + '-growrite', wline, impl_w, [], nontriv, None, True))
     rline = line('groread', [], False, flines)
@@ -688,7 +715,8 @@ def process(job):
 
 
 # the full model: extra node attributes and keyword arguments, hand-made PDB and GRO texts (harness/c16_full.py)
-HELPERS = {'gro_variant': gro_variant, 'STR_ATTRS': STR_ATTRS, 'has_letter': has_letter, 'want_str': want_str}
+HELPERS = {'gro_variant': gro_variant, 'STR_ATTRS': STR_ATTRS, 'has_letter': has_letter, 'want_str': want_str,
+           'known': known}
 rngx = chk.rng('xsys')
 for i in range(2000 if chk.thorough else 250):
     cases.append(('xsys-%d' % i, c16_full.extend_case(rngx, rand_case(rngx, 'plain'))))
@@ -754,7 +782,6 @@ for cid, spec, val, prec in c16_fmt.stream(chk.rng('fmtfield'), 40000 if chk.tho
 
 lines = [r[1] for r in records]
 chk.extra['phase_s']['real_code_done'] = round(chk.elapsed(), 1)
-open('/tmp/c16_lines.txt','w').write('\n'.join(lines)) if os.environ.get('C16_DUMP') else None
 models = chk.drv.ask(lines) if chk.lean_ok else [None] * len(lines)
 chk.extra['phase_s']['driver_done'] = round(chk.elapsed(), 1)
 for (cid, ln, impl, errs, nontriv, finding, use), mo in zip(records, models):
@@ -772,6 +799,16 @@ for (cid, ln, impl, errs, nontriv, finding, use), mo in zip(records, models):
         mo = None     # python formatting outside the model (',' grouping, types b c o x n e g %, '_', 'z')
         chk.count('fmt_model_unmodelled')
     chk.case(cid, ln, impl, mo, errs, nontriv, finding)
+if 'F-C16-4' not in known:
+    chk.notes.append('read_gro decides that a file has velocities by counting ALL points of the first atom line: exactly '
+                     'three points in the residue/atom name of the first atom (no velocities written) make it raise '
+                     'ValueError, any point there when velocities are written makes it drop the velocities; such systems '
+                     'are compared with the model only and counted as gro_first_line_three_points / '
+                     'x_gro_velocities_lost_point_in_first_name (candidate finding F-C16-4)')
+if 'F-C16-3' not in known:
+    chk.notes.append('a CONECT record between atoms of two molecules makes PDBParser._do_single_conect merge them and put '
+                     'the bond on the wrong atom (index not shifted after disjoint_union); never written by vermouth within '
+                     'the five-digit numbering; counted as text_cross_conect_bond_on_wrong_atom (candidate finding F-C16-3)')
 if not any('F-C16-2' == k for k in known):
     chk.notes.append('atom names without an ASCII letter (and, for PDB, without element) make read_pdb/read_gro raise '
                      'ValueError in first_alpha; such systems are compared with the model only and counted as '
